@@ -18,6 +18,7 @@ from ..engine import Ctx
 from ..report import Report
 from ..rules import fields
 from ..rules import q
+from ..rules import valnum
 from ..source import AnalysisError
 from ..source import norm
 
@@ -49,10 +50,50 @@ def run(ctx: Ctx, rep: Report) -> None:
     from ..rules.paramflow import rule_paramflow
     rule_paramflow(
         ctx, rep, 'bqskit/passes/control/foreach.py:ForEachBlockPass.run', {})
+    filter_model(ctx, rep)
     pdata =ctx.cls('bqskit/compiler/passdata.py:PassData')
     n = fields.rule_become(ctx, rep, pdata)
     n += fields.rule_copy(ctx, rep, pdata)
     rep.floor('FIELDS', n, 8, 'PassData field obligations')
+
+
+def filter_model(ctx: Ctx, rep: Report) -> None:
+    """SAMECONN: ForEachBlockPass hands the body a sub-model cut from
+    `data.connectivity` (the physical connectivity of the circuit's qudits
+    under the current placement).  The named replace filters decide whether
+    the *old* block respects the machine; they must look at the same
+    connectivity, not at `data.model` (whose coupling graph is indexed by
+    physical qudits - right only for the identity placement)."""
+    R = 'SAMECONN'
+    f = ctx.fn('bqskit/passes/control/foreach.py:ForEachBlockPass.run')
+    g = ctx.cfg(f)
+    rep.seen(f.qualname)
+    sub = any(
+        isinstance(s, ast.Assign) and 'data.connectivity' in norm(s.value)
+        for s in ast.walk(f.node)
+    )
+    n = 0
+    for node in g.nodes:
+        for c in node.calls():
+            if norm(c.func) != 'gen_replace_filter' or len(c.args) < 2:
+                continue
+            n += 1
+            rep.count()
+            arg = valnum.subst(ctx, f, node, c.args[1])
+            t = norm(arg)
+            rep.check(
+                sub and 'data.connectivity' in t, R,
+                'ForEachBlockPass.run:gen_replace_filter', f.path, node.lineno,
+                'the replace filter is built over data.connectivity, like '
+                'the sub-models of the body',
+                f'the replace filter is built from `{t[:60]}` while the '
+                'body\'s sub-models are cut from data.connectivity: under a '
+                'non-identity placement a block on a real device edge is '
+                'judged non-respecting (and replaced by a larger circuit) '
+                'and a block on a non-edge is kept',
+                key='filter-model',
+            )
+    rep.floor(R, n, 1, 'replace-filter constructions in ForEachBlockPass.run')
 
 
 def _run(ctx: Ctx, path: str, cls: str):
